@@ -112,3 +112,78 @@ func handlerOrder(c *ctx, rt, name string) {
 	c.count("handlers-order", 1)
 	c.emit(obj{"op": "handlers-order", "rt": rt, "n": name, "obs": obj{"events": ev, "hang": hang}})
 }
+
+// registrationRace (C07 / C16-C18): a handler is being registered - the manager replays the current cache to it inside
+// its m.mu section - and that replay call is parked while the next update arrives. Registration is atomic against
+// updates: the update has to wait and is then delivered to the new handler too. By the time a lookup exposes the new
+// content the new handler must have seen it.
+func registrationRace(c *ctx, rt, name string) {
+	w, err := newWorld(worldOpts{ndsNotRequired: true, fetchTimeout: 3 * time.Second})
+	if err != nil {
+		fmt.Println("c07h: world:", err)
+		return
+	}
+	defer w.close()
+	T := rtOf(rt)
+	var mu sync.Mutex
+	var events []string
+	log := func(e string) {
+		mu.Lock()
+		events = append(events, e)
+		mu.Unlock()
+	}
+	has := func(e string) bool {
+		mu.Lock()
+		defer mu.Unlock()
+		for _, x := range events {
+			if x == e {
+				return true
+			}
+		}
+		return false
+	}
+	w.m.VerifWatch(T, name, false)
+	w.settle()
+	w.push(mkResp(urlOf(rt), "v1", "n1", []*anypb.Any{anyStamped(rt, name, name+"#1")}))
+	gate := make(chan struct{})
+	first := true
+	regDone := make(chan struct{})
+	go func() {
+		w.m.RegisterXDSUpdateHandler(T, func(res map[string]xdsresource.Resource) {
+			if r, ok := res[name]; ok {
+				log("H2 saw " + stampOf(r))
+				if first {
+					first = false
+					<-gate
+				}
+				// a real handler installs its policy while it runs: what it installs last is what stays in force
+				log("H2 applied " + stampOf(r))
+			}
+		})
+		log("H2 registered")
+		close(regDone)
+	}()
+	if !w.waitFor(func() bool { return has("H2 saw " + name + "#1") }, 5*time.Second) {
+		c.emit(obj{"op": "handlers-order", "kind": "registration", "rt": rt, "n": name, "obs": obj{"events": events, "hang": true}})
+		close(gate)
+		return
+	}
+	// the next update arrives while the replay call is parked
+	w.feed(mkResp(urlOf(rt), "v2", "n2", []*anypb.Any{anyStamped(rt, name, name+"#2")}))
+	w.waitFor(func() bool { return w.quiet() }, 300*time.Millisecond) // it either waits for the manager lock or goes through
+	log("H2 replay released")
+	close(gate)
+	hang := false
+	select {
+	case <-regDone:
+	case <-time.After(10 * time.Second):
+		hang = true
+	}
+	w.settle()
+	log("get " + w.get(T, name))
+	mu.Lock()
+	ev := append([]string{}, events...)
+	mu.Unlock()
+	c.count("registration-race", 1)
+	c.emit(obj{"op": "handlers-order", "kind": "registration", "rt": rt, "n": name, "obs": obj{"events": ev, "hang": hang}})
+}
